@@ -47,6 +47,15 @@ CLAIMED.update({
    note=TB + SRV + "The handshake's WINDOW_UPDATE is outside the model (the peer's connection window starts at maxWindow)."),
 })
 
+CLAIMED.update({
+ "C09": dict(design="6/C09", technique="Coq proof (decoder state = reference decoder over all fragments whatever happens to streams; stream errors stay stream errors; per-catalogue lemmas) + lockstep correspondence; one known finding",
+   text="Twenty-eight theorems, generic in the HPACK coder: after any clean run the decoder state is the reference decoder folded over the header-block fragments the stream loop handled, independent of stream fates (dispatched, stream error at any field, refused, reset, in flight after reset); no other step touches it; two runs with the same fragment sequence end with the same decoder; a step with no error output leaves closing/closeRef/read-loop state unchanged; one lemma per item of the catalogue (malformed field, body over limit, refusal, peer RST at any point, window overflow, in-flight DATA/HEADERS/CONTINUATION on a server-reset stream): stream error or ignored, never GOAWAY; other streams' request views untouched. KNOWN FINDING (listed): a header LIST over MaxHeaderListSize is a connection error (pinned by the baseline's TestContinuationFlood). PARTIAL: full two-run non-interference for dropped in-flight frames stays a Definition (C09_noninterference_statement).",
+   note=TB + SRV + "'Clean run' = every header-fragment step had a live write loop and emitted no GOAWAY/panic (after an error GOAWAY that lets the loop continue, skipped blocks do desynchronise the decoder - the connection is going away)."),
+ "C01": dict(design="6/C01", technique="Coq proof (request assembly invariant under any interleaving/split/padding; response framing) + lockstep correspondence (random HPACK representations, splits, interleavings, completion orders)",
+   text="Ten theorems: the request handed to the handler is exactly what the accepted field list spells (pseudo-header values, regular fields and trailers in order), DATA payloads are appended without padding, and in any clean run under any interleaving every stream's header state and body equal the replay of its own fragments and DATA frames (split invariance via the reference decoder); dispatch emits that request; a buffered response that fits the windows goes out as HEADERS (END_STREAM iff no body) then DATA chunks <= 16384 concatenating to the body with END_STREAM on the last; other streams untouched. PARTIAL: 'exactly one dispatch per request over the whole run' is proved as at-most-once (C17_dispatch_once) plus the per-step lemmas; the whole-run existence statement (C01_request_integrity_statement) and streamed/late-window response bodies beyond framing (C06_end_stream_once) are not closed theorems.",
+   note=TB + SRV + "Response header lists are read back from the observed HEADERS frames (fasthttp is outside the model)."),
+})
+
 NA_REASON = "check not built yet in this commit (planned, DESIGN.md section 6); nothing is claimed until its theorems and correspondence run exist"
 
 hooks = subprocess.check_output(["git","-C","/repo","log","--format=%h %s"]).decode().split("\n")
